@@ -196,7 +196,8 @@ def keepalive_timeout(E):
     E.loop_specs[(KTT, 0)] = spec
     sock.attrs['_last_server_keepalive'] = aio.mk_datetime(E, E.fresh_int('last0'))
     E.await_value(E.call(E.getattr(sock, '_keepalive_timeout_task'), []))
-    E.cover('unreachable-without-cancel')
+    # the service loop has no exit of its own: reaching this point without a cancellation means the watchdog stopped watching
+    E.prove('keepalive_timeout:the_watchdog_ends_only_by_cancellation', False)
 
 
 @harness('c15.lemma.keepalive_arithmetic', ['C15'], functions=[],
@@ -448,6 +449,14 @@ def handle_setup(E):
     E.cover('accepted')
     calls = log.of(app, 'on_setup')
     P('setup:acceptable_setup_only', not resume and (not lease or has_pub))
+    P('setup:accepted_only_if_on_setup_returned_normally[a failing on_setup is never swallowed]',
+      not any('opaque-raise:app-handler.on_setup:1' in x for x in E.path.sig))
+    if lease:
+        ls = log.of(pub, 'subscribe')
+        P('setup:lease_publisher_gets_a_subscriber_that_announces_on_this_socket',
+          len(ls) == 1 and isinstance(ls[0][2][0], SObj) and ls[0][2][0].cls.name == 'LeaseSubscriber')
+    else:
+        P('setup:no_lease_requested=>publisher_not_subscribed', pub is None or not log.of(pub, 'subscribe'))
     P('setup:on_setup_called_exactly_once_with_encodings_and_payload',
       len(calls) == 1 and calls[0][2][0] is denc and calls[0][2][1] is menc and payload_is(E, calls[0][2][2], data, md))
     if lease:
@@ -506,6 +515,7 @@ def connect_fresh(E):
     P('reconnect:server_considered_alive_again[whatever ended the previous connection]', sock.attrs['_is_server_alive'] is True)
     P('reconnect:keepalive_clock_restarted', I(sock.attrs['_last_server_keepalive'].attrs['t']) == I(now))
     P('reconnect:not_connecting_any_more', sock.attrs['_connecting'] is False)
+    P('reconnect:responder_lease_reset_and_endpoint_open', sock.attrs['_responder_lease'].cls.name == 'NullLease' and sock.attrs['_is_closing'] is False)
 
 
 RCL = CLIENT + '._reconnect_listener'
@@ -521,7 +531,8 @@ def reconnect_listener(E):
     sock.attrs['_next_transport'] = old_future
     order = []
     E.stubs[CLIENT + '._close'] = lambda E_, f, a, k: (order.append(('close', k.get('reconnect', a[1] if len(a) > 1 else False),
-                                                                    sock.attrs['_next_transport'] is old_future)), aio.Awaitable('ready'))[1]
+                                                                    sock.attrs['_next_transport'] is old_future, sock.attrs['_connecting'],
+                                                                    ev.attrs['flag'])), aio.Awaitable('ready'))[1]
     E.stubs[CLIENT + '.connect'] = lambda E_, f, a, k: (order.append(('connect', sock.attrs['_next_transport'])), aio.Awaitable('ready'))[1]
     E.stubs[BASE + '.stop_all_streams'] = lambda E_, f, a, k: order.append(('stop_all_streams',))
     E.await_value(E.call(E.getattr(sock, 'reconnect'), []))
@@ -538,12 +549,15 @@ def reconnect_listener(E):
     E.await_value(E.call(E.getattr(sock, '_reconnect_listener'), []))
     E.cover('listener-step')
     steps = [o[0] for o in order]
+    E.prove('listener:keeps_serving[after handling - or ignoring - a request it waits for the next one]', n[0] >= 2)
     if was_connecting:
         E.prove('listener:request_ignored_while_already_connecting', steps == ['stop_all_streams'])
     else:
         E.prove('listener:close_old_then_connect_new', steps == ['close', 'connect', 'stop_all_streams'])
         E.prove('listener:old_connection_closed_in_reconnect_mode_before_the_transport_future_is_replaced',
                 order[0][1] is True and order[0][2] is True)
+        E.prove('listener:marked_as_connecting_and_request_consumed_before_the_old_connection_is_closed[further requests meanwhile are not lost, concurrent ones ignored]',
+                order[0][3] is True and order[0][4] is False)
         nf = order[1][1]
         E.prove('listener:fresh_pending_transport_future_installed_before_connect', nf is not old_future and nf.attrs['state'] == 'pending')
     E.prove('listener:request_event_cleared', ev.attrs['flag'] is False)
@@ -654,13 +668,16 @@ def sender_exit(E):
     E.stubs[BASE + '._stop_tasks'] = lambda E_, f, a, k: (order.append('stop_tasks'), aio.Awaitable('ready'))[1]
     E.stubs[SERVER + '._finally_sender'] = lambda E_, f, a, k: (order.append('finally_sender'), aio.Awaitable('ready'))[1]
     E.stubs[BASE + '._finally_sender'] = E.stubs[SERVER + '._finally_sender']
+    E.stubs[BASE + '._before_sender'] = lambda E_, f, a, k: order.append('before_sender[%d frames written]' % len(log.of(transport, 'send_frame')))
+    E.stubs[SERVER + '._before_sender'] = E.stubs[BASE + '._before_sender']
     try:
         E.await_value(E.call(E.getattr(sock, '_sender'), []))
     except PyExc as e:
         E.prove('sender:transport_errors_and_cancellation_are_absorbed', False)
         return
     E.cover('sender-ended')
-    E.prove('sender:only_its_own_finaliser_runs[close notification and stream clean-up are the receiver\'s job, once]', order == ['finally_sender'])
+    E.prove('sender:only_its_own_hooks_run[start hook once before the first write - it starts the keepalives -, finaliser once at the end; '
+            'close notification and stream clean-up are the receiver\'s job]', order == ['before_sender[0 frames written]', 'finally_sender'])
 
 
 # --------------------------------------------------------------------------- client receiver: life cycle of the keepalive watchdog
@@ -709,3 +726,61 @@ def client_receiver_listen(E):
     P('watchdog:outcome_of_the_listener_is_passed_on_unchanged',
       (how == 0 and escaped is None) or (how == 1 and escaped is terr) or (how == 2 and escaped is not None and escaped.cls.name == 'CancelledError')
       or (how == 3 and escaped is not None and escaped.cls.name == 'ValueError'))
+
+
+
+@harness('c15.client.sender_hooks', ['C15', 'C11', 'C17'], functions=[CLIENT + '._before_sender', CLIENT + '._finally_sender', CLIENT + '._stop_tasks',
+                                                                   'rsocket/helpers.py::cancel_if_task_exists'],
+         assumptions=['asyncio task model: cancel() on a pending task requests cancellation; awaiting it then raises CancelledError'])
+def client_sender_hooks(E):
+    """The client's sender starts exactly one keepalive-send task per connection and its finaliser (and _stop_tasks) cancel
+    exactly that task: keepalives start with the connection and stop with it."""
+    sock, table, ctable = mk_client(E, _is_closing=False, _keepalive_task=None, _sender_task=None, _receiver_task=None)
+    tasks = []
+    E.create_task_hook = lambda E_, t, coro: tasks.append((t, coro))
+
+    def on_suspend(E_, what):
+        kind, obj = what
+        if kind == 'future' and obj.attrs.get('cancel_requested'):
+            obj.attrs['state'] = 'cancelled'
+        return None
+    E.suspend_hook = on_suspend
+    E.call(E.getattr(sock, '_before_sender'), [])
+    E.cover('started')
+    E.prove('sender_hooks:exactly_one_keepalive_send_task_started_and_remembered',
+            len(tasks) == 1 and tasks[0][1].func.name == '_keepalive_send_task' and sock.attrs['_keepalive_task'] is tasks[0][0])
+    which = E.path.choice(2, 'stopped-by')
+    if which == 0:
+        E.await_value(E.call(E.getattr(sock, '_finally_sender'), []))
+    else:
+        E.await_value(E.call(E.getattr(sock, '_stop_tasks'), []))
+    E.prove('sender_hooks:that_task_is_cancelled_when_the_sender_ends_or_the_tasks_are_stopped', tasks[0][0].attrs['cancel_requested'] is True)
+    closing = mk_client(E, _is_closing=True, _keepalive_task=None)[0]
+    E.call(E.getattr(closing, '_before_sender'), [])
+    E.prove('sender_hooks:no_keepalives_for_an_endpoint_that_is_closing', len(tasks) == 1 and closing.attrs['_keepalive_task'] is None)
+
+
+
+@harness('c14.connect_subscribes_lease_publisher', ['C14', 'C16'], functions=[BASE + '.connect', BASE + '._subscribe_to_lease_publisher',
+                                                                         BASE + '.LeaseSubscriber.__init__'])
+def connect_lease_subscription(E):
+    """A client that honours leases subscribes to its lease publisher when it connects - exactly once, with a subscriber that
+    announces on this socket (c14.send_lease) - and an endpoint without lease support never does."""
+    sock, table, ctable = mk_client(E, _setup_payload=None, _keep_alive_period=aio.mk_timedelta(E, 500000),
+                                    _max_lifetime_period=aio.mk_timedelta(E, 600000000), _data_encoding=b'a/b', _metadata_encoding=b'c/d')
+    honor = E.path.choice(2, 'honor_lease') == 1
+    has_pub = E.path.choice(2, 'lease-publisher') == 1
+    pub = SOpaque('publisher', 'lease-publisher') if has_pub else None
+    sock.attrs['_honor_lease'] = honor
+    sock.attrs['_lease_publisher'] = pub
+    sock.attrs['_send_queue'] = E.call(E.lookup('rsocket/queue_peekable.py::QueuePeekable'), [])
+    log = OpaqueLog(E)
+    E.await_value(E.call(E.getattr(E.lookup(BASE), 'connect'), [sock]))
+    E.cover('connected')
+    subs = log.of(pub, 'subscribe') if pub is not None else []
+    if honor and has_pub:
+        E.prove('connect:lease_publisher_subscribed_exactly_once_with_a_subscriber_bound_to_this_socket',
+                len(subs) == 1 and isinstance(subs[0][2][0], SObj) and subs[0][2][0].cls.name == 'LeaseSubscriber'
+                and subs[0][2][0].attrs.get('_socket') is sock)
+    else:
+        E.prove('connect:no_subscription_without_lease_support', not subs)
